@@ -58,14 +58,22 @@ type c13SDK struct{ interfaces.DeviceServiceSDK }
 func (c13SDK) UpdateDeviceOperatingState(string, models.OperatingState) error { return nil }
 
 type c13Reader struct {
-	ln    net.Listener
-	idx   int
-	wmu   sync.Mutex
-	conn  net.Conn
-	ready chan struct{}
-	once  sync.Once
-	acks  atomic.Int64
-	conns atomic.Int64
+	ln  net.Listener
+	ln2 net.Listener // the address the device is moved to by a 'U1' step (and back)
+	idx int
+	// okConns counts the connections on which the device's SetReaderConfig was answered with success
+	okConns atomic.Int64
+	// early: frames to send on the first working connection before answering GetSupportedVersion
+	// ('a'), between that answer and the answer to SetProtocolVersion ('b'), and before answering
+	// the device's own SetReaderConfig ('c'); twoStep: negotiate in two steps (current 1.0.1, max 1.1)
+	early   map[byte][][]byte
+	twoStep bool
+	wmu     sync.Mutex
+	conn    net.Conn
+	ready   chan struct{}
+	once    sync.Once
+	acks    atomic.Int64
+	conns   atomic.Int64
 	// modes: how the first connections go wrong, one character per connection, before the
 	// normal one: 's' the device's SetReaderConfig is answered with an error status, 'x' the
 	// connection drops right after the connection event, 'y' it drops when SetReaderConfig
@@ -103,12 +111,39 @@ func (rd *c13Reader) writeSplit(b []byte, cut int, wait time.Duration) {
 	rd.conn.Write(b[cut:])
 }
 
+func (rd *c13Reader) drop() {
+	rd.wmu.Lock()
+	if rd.conn != nil {
+		rd.conn.Close()
+	}
+	rd.wmu.Unlock()
+}
+
+func (rd *c13Reader) flushEarly(phase byte) {
+	rd.wmu.Lock()
+	fr := rd.early[phase]
+	delete(rd.early, phase)
+	rd.wmu.Unlock()
+	for _, b := range fr {
+		rd.write(b)
+	}
+}
+
 func (rd *c13Reader) serve() {
+	accepted := make(chan net.Conn, 8)
+	for _, ln := range []net.Listener{rd.ln, rd.ln2} {
+		go func(ln net.Listener) {
+			for {
+				c, err := ln.Accept()
+				if err != nil {
+					return
+				}
+				accepted <- c
+			}
+		}(ln)
+	}
 	for n := 0; ; n++ {
-		c, err := rd.ln.Accept()
-		if err != nil {
-			return
-		}
+		c := <-accepted
 		mode := byte(0)
 		if n < len(rd.modes) {
 			mode = rd.modes[n]
@@ -123,6 +158,7 @@ func (rd *c13Reader) serve() {
 			c.Close()
 			continue
 		}
+		okHere := false
 		for {
 			typ, id, payload, err := c15ReadFrame(c)
 			if err != nil {
@@ -130,14 +166,31 @@ func (rd *c13Reader) serve() {
 			}
 			switch {
 			case typ == c15MsgGetSupportedVersion:
-				rd.write(c15Frame(c15MsgGetSupportedVersionResp, id, append([]byte{2 << 5, 2 << 5}, c15Status(0)...)))
+				cur := byte(2 << 5)
+				if mode == 0 {
+					rd.flushEarly('a')
+					if rd.twoStep {
+						cur = 1 << 5 // the device will ask for 1.1 with SetProtocolVersion
+					}
+				}
+				rd.write(c15Frame(c15MsgGetSupportedVersionResp, id, append([]byte{cur, 2 << 5}, c15Status(0)...)))
+			case typ == 47: // SetProtocolVersion
+				if mode == 0 {
+					rd.flushEarly('b')
+				}
+				rd.write(c15Frame(57, id, c15Status(0)))
 			case typ == c15MsgSetReaderConfig && mode == 's':
 				rd.write(c15Frame(c15MsgSetReaderConfigResp, id, c15Status(100)))
 			case typ == c15MsgSetReaderConfig && mode == 'y':
 				c.Close()
 			case typ == c15MsgSetReaderConfig && mode == 'w':
 			case typ == c15MsgSetReaderConfig:
+				rd.flushEarly('c')
 				rd.write(c15Frame(c15MsgSetReaderConfigResp, id, c15Status(0)))
+				if !okHere {
+					okHere = true
+					rd.okConns.Add(1)
+				}
 				rd.once.Do(func() { close(rd.ready) })
 			case typ == c15MsgKeepAliveAck:
 				rd.acks.Add(1)
@@ -381,32 +434,27 @@ func c13RunScenario(f []string) string {
 			return "!listen"
 		}
 		defer ln.Close()
-		rd := &c13Reader{ln: ln, idx: i, ready: make(chan struct{}), stall: 90 * time.Millisecond}
+		ln2, err := net.Listen("tcp4", "127.0.0.1:0")
+		if err != nil {
+			return "!listen"
+		}
+		defer ln2.Close()
+		rd := &c13Reader{ln: ln, ln2: ln2, idx: i, ready: make(chan struct{}), stall: 90 * time.Millisecond, early: map[byte][][]byte{}}
 		for _, st := range f[3:] {
 			if len(st) > 2 && st[1] == '+' && int(st[0]-'0') == i {
 				rd.modes = st[2:]
 			}
 		}
 		readers[i] = rd
-		go rd.serve()
 		names[i] = fmt.Sprintf("c13-%s-dev%d", id, i)
-		port := ln.Addr().(*net.TCPAddr).Port
-		if err := d.AddDevice(names[i], protocolMap{"tcp": {"host": "127.0.0.1", "port": strconv.Itoa(port)}}, models.Unlocked); err != nil {
-			return "!adddevice " + err.Error()
-		}
 	}
-	for _, rd := range readers {
-		patience := 8 * time.Second
-		if strings.Contains(rd.modes, "w") {
-			patience = 40 * time.Second
+	protoOf := func(di, which int) protocolMap {
+		ln := readers[di].ln
+		if which == 1 {
+			ln = readers[di].ln2
 		}
-		select {
-		case <-rd.ready:
-		case <-time.After(patience):
-			return "!notready"
-		}
+		return protocolMap{"tcp": {"host": "127.0.0.1", "port": strconv.Itoa(ln.Addr().(*net.TCPAddr).Port)}}
 	}
-
 	// the script
 	perDev := make([][]*c13Step, ndev)
 	var notes []string
@@ -417,6 +465,17 @@ func c13RunScenario(f []string) string {
 		s := &c13Step{dev: int(st[0] - '0'), idx: i, kind: st[1]}
 		if len(st) > 2 {
 			s.variant, _ = strconv.Atoi(st[2:])
+		}
+		phase := byte(0)
+		if st[1] == '@' { // d@<phase><kind><variant>: sent while the connection is still being set up
+			if len(st) < 4 {
+				return "!badstep:" + st
+			}
+			phase, s.kind = st[2], st[3]
+			s.variant, _ = strconv.Atoi(st[4:])
+			if s.kind != 'R' && s.kind != 'E' && s.kind != 'r' && s.kind != 'e' {
+				return "!badstep:" + st
+			}
 		}
 		switch s.kind {
 		case 'R':
@@ -480,30 +539,104 @@ func c13RunScenario(f []string) string {
 			if (&llrp.ReaderEventNotification{}).UnmarshalBinary(s.payload) == nil {
 				notes = append(notes, "!badgen:"+st)
 			}
-		case 'K', 'C', 'T':
+		case 'K', 'C', 'T', 'U', 'X', 'Z':
 		case '+':
 			continue
 		default:
 			return "!badstep:" + st
 		}
 		steps = append(steps, s)
+		if phase != 0 {
+			rd := readers[s.dev]
+			rd.early[phase] = append(rd.early[phase], c15Frame(s.typ, uint32(5000+s.idx), s.payload))
+			rd.twoStep = true
+			continue
+		}
 		perDev[s.dev] = append(perDev[s.dev], s)
 	}
+	for i, rd := range readers {
+		go rd.serve()
+		if err := d.AddDevice(names[i], protoOf(i, 0), models.Unlocked); err != nil {
+			return "!adddevice " + err.Error()
+		}
+	}
+	for _, rd := range readers {
+		patience := 8 * time.Second
+		if strings.Contains(rd.modes, "w") {
+			patience = 40 * time.Second
+		}
+		select {
+		case <-rd.ready:
+		case <-time.After(patience):
+			return "!notready"
+		}
+	}
+
 	delays := make([]time.Duration, len(f))
 	for i := range delays {
 		delays[i] = time.Duration(rnd.Intn(1500)) * time.Microsecond
 	}
 
 	var wg sync.WaitGroup
-	var cmdOK, cmdN, kaN, tOK, tN atomic.Int64
+	var cmdOK, cmdN, kaN, tOK, tN, stuck, noReconnect atomic.Int64
 	for di := 0; di < ndev; di++ {
 		wg.Add(1)
 		go func(di int) {
 			defer wg.Done()
 			rd := readers[di]
-			for _, s := range perDev[di] {
+			var mine sync.WaitGroup // this device's commands and requests still under way
+			where := 0              // which of its two addresses the device is configured with
+			// bounded: an operation of the service that never returns must not hang the scenario
+			bounded := func(what string, limit time.Duration, op func()) {
+				done := make(chan struct{})
+				go func() { op(); close(done) }()
+				select {
+				case <-done:
+				case <-time.After(limit):
+					stuck.Add(1)
+				}
+			}
+			waitOK := func(before int64) {
+				for dl := time.Now().Add(6 * time.Second); rd.okConns.Load() <= before && time.Now().Before(dl); {
+					time.Sleep(time.Millisecond)
+				}
+				if rd.okConns.Load() <= before {
+					noReconnect.Add(1)
+				}
+			}
+			for k, s := range perDev[di] {
 				time.Sleep(delays[s.idx%len(delays)])
 				switch s.kind {
+				case 'U':
+					// EdgeX updates the device: same address (0, nothing should happen, in the
+					// background) or the other address (1: connection closed, reconnect there)
+					if s.variant%2 == 0 {
+						wg.Add(1)
+						go func(where int) {
+							defer wg.Done()
+							bounded("update", 3*time.Second, func() { _ = d.UpdateDevice(names[di], protoOf(di, where), models.Unlocked) })
+						}(where)
+						continue
+					}
+					before := rd.okConns.Load()
+					where = 1 - where
+					bounded("update", 3*time.Second, func() { _ = d.UpdateDevice(names[di], protoOf(di, where), models.Unlocked) })
+					waitOK(before)
+				case 'X':
+					// outage: the reader's side of the connection goes away; the device reconnects
+					before := rd.okConns.Load()
+					rd.drop()
+					waitOK(before)
+				case 'Z':
+					// this device is removed while the others go on; nothing more is sent for it.
+					// (Its own commands are allowed to finish first: a request caught by the removal
+					// waits for the 20 s deadline on the client the supervisor leaves behind.)
+					bounded("commands", 3*time.Second, mine.Wait)
+					bounded("remove", 3*time.Second, func() { _ = d.RemoveDevice(names[di], nil) })
+					for _, rest := range perDev[di][k+1:] {
+						rest.want = nil
+					}
+					return
 				case 'K':
 					kaN.Add(1)
 					rd.write(c15Frame(c15MsgKeepAlive, uint32(7000+s.idx), nil))
@@ -511,8 +644,10 @@ func c13RunScenario(f []string) string {
 					// a request with a short deadline; the reader answers slowly, in pieces, or never
 					tN.Add(1)
 					wg.Add(1)
+					mine.Add(1)
 					go func(s *c13Step) {
 						defer wg.Done()
+						defer mine.Done()
 						if s.variant == 9 { // through the driver (20 s deadline), reply split 21 s apart
 							rd.stallGRC.Store(true)
 							_, _ = d.HandleReadCommands(names[s.dev], nil,
@@ -537,8 +672,10 @@ func c13RunScenario(f []string) string {
 				case 'C':
 					cmdN.Add(1)
 					wg.Add(1)
+					mine.Add(1)
 					go func(s *c13Step) {
 						defer wg.Done()
+						defer mine.Done()
 						var err error
 						if s.variant%5 == 4 {
 							cv1, _ := dsModels.NewCommandValue(ResourceROSpecID, common.ValueTypeUint32, uint32(s.idx+1))
@@ -606,7 +743,15 @@ func c13RunScenario(f []string) string {
 	var rwg sync.WaitGroup
 	for i := range names {
 		rwg.Add(1)
-		go func(n string) { defer rwg.Done(); _ = d.RemoveDevice(n, nil) }(names[i])
+		go func(n string) {
+			defer rwg.Done()
+			done := make(chan struct{})
+			go func() { _ = d.RemoveDevice(n, nil); close(done) }()
+			select {
+			case <-done:
+			case <-time.After(3 * time.Second):
+			}
+		}(names[i])
 	}
 	rwg.Wait()
 	close(stopCollect)
@@ -690,8 +835,8 @@ func c13RunScenario(f []string) string {
 	for _, rd := range readers {
 		conns += rd.conns.Load()
 	}
-	return fmt.Sprintf("%d %s | acks=%d/%d cmds=%d/%d timed=%d/%d other=%d conns=%d errs=%d sent=%s", len(toks), strings.Join(toks, " "),
-		acks, kaN.Load(), cmdOK.Load(), cmdN.Load(), tOK.Load(), tN.Load(), other, conns, errs.Load(), strings.Join(sent, ","))
+	return fmt.Sprintf("%d %s | acks=%d/%d cmds=%d/%d timed=%d/%d other=%d conns=%d errs=%d stuck=%d noreconnect=%d ms=%d sent=%s", len(toks), strings.Join(toks, " "),
+		acks, kaN.Load(), cmdOK.Load(), cmdN.Load(), tOK.Load(), tN.Load(), other, conns, errs.Load(), stuck.Load(), noReconnect.Load(), time.Since(t0).Milliseconds(), strings.Join(sent, ","))
 }
 
 var _ = binary.BigEndian
